@@ -44,11 +44,44 @@ def run(rep, repo, tier):
                 continue
             if twopl:
                 check_grammar(rep, wf, cls)
+                check_call_arguments(rep, wf, cls)
                 check_files(rep, wf, cls)
                 check_spread(rep, wf, cls)
             check_gating(rep, wf, cls, twopl)
     check_sampling(rep, repo)
     check_type_dispatch(rep, repo)
+
+
+# positional parameters of the shared building blocks (their order is the public interface the tests call) -> the option
+# that has to arrive there; None = not an option (a list built before)
+CALL_ARGS = {
+    'create_pref_lists_original': ['n1', 'n2', 'minpreflistlength', 'maxpreflistlength', 'ties1', 'skew'],
+    'create_pref_lists_from_other_lists': [None, {'Generator_ha_sm_hr': 'n2', 'Generator_spa': 'n3'}, 'ties2'],
+    'create_project_lecturers': ['n2', 'n3'],
+    'create_student_lec_lists': [None, None, 'n3'],
+}
+
+
+def check_call_arguments(rep, wf, cls):
+    """R6: the options reach the list-drawing functions in the positions their parameters have (number of lists, population,
+    length bounds, tie probability, skew; number of lecturers)"""
+    w = wf.gi.where
+    seen = set()
+    for e, _ in iter_effects(wf.effs):
+        if e.kind not in ('call', 'callo') or getattr(e.target, 'name', None) not in CALL_ARGS or e.target.name in seen:
+            continue
+        seen.add(e.target.name)
+        want = CALL_ARGS[e.target.name]
+        if len(e.args) < len(want):
+            rep.inconclusive('C08.R6', w, '%s is called with positional arguments' % e.target.name, got='%d positional arguments' % len(e.args))
+            continue
+        for k, d in enumerate(want):
+            d = d.get(cls) if isinstance(d, dict) else d
+            if d is None:
+                continue
+            rep.check(e.args[k] == A(ARGS, d), 'C08.R6', w, 'argument %d of %s is the option %s' % (k + 1, e.target.name, d), got=show(e.args[k])[:60], want='args.' + d,
+                      construct='%s argument %d of %s fed by %s' % (cls, k + 1, e.target.name, show(e.args[k])[:40]), loc=e.loc)
+    rep.count('building_block_calls_checked', len(seen))      # a block that is inlined or replaced is judged through the lines it feeds (R2, R6 roles)
 
 
 WRITER_OF_TYPE = {'ha': 'Generator_ha_sm_hr', 'sm': 'Generator_ha_sm_hr', 'hr': 'Generator_ha_sm_hr', 'spa': 'Generator_spa'}
